@@ -72,8 +72,25 @@ func RunOps(cfg RunCfg, ops []Op) (*World, []string, *Mismatch) {
 				cmpOf[op.Name] = op.N
 			}
 		}
+		l0 := 0
+		if w.File != nil {
+			l0 = w.File.LogLen()
+		}
 		got := w.Do(op)
 		obs = append(obs, got)
+		if w.File != nil && !w.Hang {
+			evs := w.File.LogFrom(l0)
+			if m := w.IO.checkIO(op, got, evs, op.H == 0); m != nil {
+				m.Step, m.Op = i, op.String()
+				return w, obs, m
+			}
+			if op.K == "reopen" && got == "ok" && op.H == 0 {
+				if m := checkOpenReads(evs); m != nil {
+					m.Step, m.Op = i, op.String()
+					return w, obs, m
+				}
+			}
+		}
 		if w.Hang {
 			return w, obs, &Mismatch{Step: i, Op: op.String(), Expected: "(termination)", Observed: "HANG", Kind: "hang"}
 		}
@@ -81,6 +98,9 @@ func RunOps(cfg RunCfg, ops []Op) (*World, []string, *Mismatch) {
 			return w, obs, &Mismatch{Step: i, Op: op.String(), Expected: "(no panic)", Observed: "PANIC: " + w.Panic, Kind: "panic"}
 		}
 		exp := w.Expect(op)
+		if exp == "?" {
+			continue
+		}
 		cmpGot := got
 		if op.K == "ascx" || op.K == "descx" {
 			cmpGot = stripDepth(got)
@@ -96,7 +116,7 @@ func RunOps(cfg RunCfg, ops []Op) (*World, []string, *Mismatch) {
 		}
 		if cfg.DumpEvery {
 			for hi, h := range w.H {
-				if h.Closed {
+				if h.Closed || h.Ref == nil {
 					continue
 				}
 				d := w.DumpImpl(hi)
@@ -166,6 +186,30 @@ func checkReopenImage(w *World, cmpOf map[string]int, i int, op Op) *Mismatch {
 	if e := exp.dump(); e != got {
 		return &Mismatch{Step: i, Op: op.String(), Expected: e, Observed: got, Kind: "reopen-dump",
 			Note: "contents of a fresh Store opened on a copy of the file image after this step vs state at the last successful Flush"}
+	}
+	return nil
+}
+
+// checkOpenReads: opening a file that ends in a root record issues Stat,
+// one read of the 24-byte trailer and one read of the root record (C19).
+func checkOpenReads(evs []IOEvent) *Mismatch {
+	if len(evs) == 0 || evs[0].Kind != 'S' {
+		return &Mismatch{Kind: "open-io", Expected: "Stat first", Observed: fmt.Sprint(len(evs), " calls")}
+	}
+	size := evs[0].SizeB
+	if size == 0 {
+		if len(evs) != 1 {
+			return &Mismatch{Kind: "open-io", Expected: "an empty file is opened with Stat only", Observed: fmt.Sprintf("%d file calls", len(evs))}
+		}
+		return nil
+	}
+	if len(evs) != 3 || evs[1].Kind != 'R' || evs[2].Kind != 'R' || evs[1].Len != 24 || evs[1].Off != size-24 ||
+		evs[2].Off+int64(evs[2].Len) != size-24 {
+		var d []string
+		for _, e := range evs {
+			d = append(d, fmt.Sprintf("%c(off=%d,len=%d)", e.Kind, e.Off, e.Len))
+		}
+		return &Mismatch{Kind: "open-io", Expected: fmt.Sprintf("Stat, ReadAt(24 bytes at %d), one ReadAt of the root record ending at %d", size-24, size-24), Observed: fmt.Sprint(d)}
 	}
 	return nil
 }
